@@ -26,7 +26,7 @@ INFO = {
  "C18": ("model_checking", "complete display-name table (52 functions x enumeration integers -2..8 x 10 language tags) validated by TLC against the relational specification.", "7 C18"),
  "C12": ("exploration", "Objects.tla defines validity of an object state; MC_Objects enumerates the receiver states (6 kinds x constructor/nil x 14 decode inputs x field and version resets, with lemmas on the abstract machine); every state is materialised on the real types and every query is applied through every accessor, each step validated by TLC (no panic, object xor error, error and score 0 on invalid receivers). Arbitrary input bytes are sampled (random, TLC-explored edits, degenerate, 1-8 MiB) through constructor and nil receivers.", "7 C12, Appendix B"),
  "C15": ("model_checking", "each query is validated by TLC as a stuttering step of the Objects machine: the recorded snapshots of all live objects (exported fields + unexported names maps) and the digest of the package-level tables are UNCHANGED, repeated calls agree, and the result equals that of a freshly decoded twin; thousands of vectors with near-duplicates are decoded in three processing orders with report construction interleaved and must give identical results.", "7 C15"),
- "C16": ("exploration", "Concurrent.tla: every interleaving of the pure design is race free with sequential results and each of four deliberate deviations (lazy table, memoised score, shared names set, shared scratch buffer) is caught by TLC (non-vacuity). Conformance: all 70 TLC-generated interleavings of the gated decodeOne steps of two goroutines replayed deterministically through the build-tag hook, plus free-running stress on 16-128 goroutines, all under the Go race detector; every result validated by TLC against the sequential reference.", "7 C16"),
+ "C16": ("exploration", "Concurrent.tla: every interleaving of the pure design is race free with sequential results and each of six deliberate deviations (lazy table, memoised score, shared names set, shared scratch buffer, last-template cache, buffer pool with a double put) is caught by TLC (non-vacuity). Conformance: all 70 TLC-generated interleavings of the gated decodeOne steps of two goroutines replayed deterministically through the build-tag hook, plus free-running stress on 16-128 goroutines, all under the Go race detector; every result validated by TLC against the sequential reference.", "7 C16"),
  "C19": ("model_checking", "Template.tla specifies rendering for a template mini-language (41 segment kinds); MC_Template enumerates all templates of <=2 (quick) / <=3 (thorough) segments with compositionality lemmas; every template is exported from reports of all levels via string, chunked readers, failing readers, nil readers and nil reports; TLC validates output / clean failure against Template!Render and, for all templates incl. 40+ outside the grammar, against Go's text/template run on the same report.", "7 C19"),
 }
 NOTE = {
